@@ -94,6 +94,12 @@ def gen_cases(tier, rng):
     # splatted into a %-format, iterated or unpacked on the error path either)
     for api in MISSING_APIS:
         yield {"kind": "missing", "api": api, "mod": "_missing", "hashseed": 0}
+    # library algorithms that no other property's API reaches (all_vstructures): the set of unshielded colliders of a DAG, under
+    # every label family and insertion order, against the one-line definition evaluated on the abstract graph
+    for i in range(60 if tier == "quick" else 600):
+        n = rng.randint(3, 6)
+        g = gr.random_kinds_graph(rng, n, gr.DAG_KINDS, p_edge=0.55)
+        yield {"kind": "vstruct", "mod": "_vstruct", "hashseed": 0, "g": g, "orders": [rng.randrange(10 ** 6) for _ in range(4)]}
     # executable cross-check of the renaming theorems
     for i in range(40 if tier == "quick" else 400):
         n = rng.randint(2, 5)
@@ -163,9 +169,29 @@ def _missing_call(api, fam):
         return "exc:" + type(e).__name__
 
 
+def _vstruct_run(case):
+    from pywhy_graphs.algorithms import all_vstructures
+    g = case["g"]
+    D = set(map(tuple, g["D"]))
+    adj = lambda a, b: (a, b) in D or (b, a) in D  # noqa: E731
+    want_t = sorted({(min(a, b), c, max(a, b)) for (a, c) in D for (b, c2) in D if c2 == c and a != b and not adj(a, b)})
+    want_e = sorted({(a, c) for (a, c) in D for (b, c2) in D if c2 == c and a != b and not adj(a, b)})
+    bad = []
+    for fam in ["int"] + [f for f in FAMILIES if f not in ("obj",)]:
+        for o in case["orders"]:
+            G, lab, inv = gr.to_digraph(g, {"_lab": fam, "_order": o})
+            got_t = sorted({(min(inv(a), inv(b)), inv(c), max(inv(a), inv(b))) for a, c, b in all_vstructures(G)})
+            got_e = sorted({(inv(a), inv(c)) for a, c in all_vstructures(G, as_edges=True)})
+            if got_t != want_t or got_e != want_e:
+                bad.append([fam, o, [list(x) for x in got_t], [list(x) for x in got_e]])
+    return {"bad": bad[:3], "want": [list(x) for x in want_t]}
+
+
 def run_impl(case):
     if case["kind"] == "oracle":
         return {"oracle": True}
+    if case["kind"] == "vstruct":
+        return _vstruct_run(case)
     if case["kind"] == "missing":
         return {"outcome": {fam: _missing_call(case["api"], fam) for fam in ["int"] + [f for f in FAMILIES if f != "obj"]}}
     w = _worker(case["hashseed"])
@@ -184,7 +210,7 @@ def custom_evaluate(cases, pool):
     for i, c in enumerate(cases):
         by_mod.setdefault(c["mod"] if c["kind"] != "oracle" else "_oracle", []).append(i)
     for name, idxs in by_mod.items():
-        if name == "_missing":
+        if name in ("_missing", "_vstruct"):
             for i in idxs:
                 sxs[i], model[i] = [0], {"missing": True}
             continue
@@ -209,6 +235,10 @@ def custom_evaluate(cases, pool):
 
 
 def compare(case, impl, model):
+    if case["kind"] == "vstruct":
+        if "exc" in impl:
+            return "all_vstructures:exception"
+        return None if not impl["bad"] else "all_vstructures:differs-from-definition-under-some-family/order"
     if case["kind"] == "missing":
         if "exc" in impl:
             return "missing-node:harness"
@@ -224,7 +254,7 @@ def compare(case, impl, model):
 
 
 def classify(case, impl, model):
-    if case["kind"] in ("oracle", "missing"):
+    if case["kind"] in ("oracle", "missing", "vstruct"):
         return None
     m = inner(case["mod"])
     k = getattr(m, "classify", lambda *a: None)(case["inner"], impl, model)
@@ -243,13 +273,15 @@ def known(ctx):
 
 
 def nontrivial(case, model):
-    if case["kind"] in ("oracle", "missing"):
+    if case["kind"] in ("oracle", "missing", "vstruct"):
         return True
     m = inner(case["mod"])
     return getattr(m, "nontrivial", lambda c, mo: True)(case["inner"], model)
 
 
 def key(case):
+    if case["kind"] == "vstruct":
+        return "vstruct:" + json.dumps(case["g"], sort_keys=True)
     if case["kind"] == "missing":
         return "missing:" + case["api"]
     if case["kind"] == "oracle":
@@ -258,7 +290,7 @@ def key(case):
 
 
 def shrink(case):
-    if case["kind"] in ("oracle", "missing"):
+    if case["kind"] in ("oracle", "missing", "vstruct"):
         return
     m = inner(case["mod"])
     if hasattr(m, "shrink"):
